@@ -393,6 +393,43 @@ impl<'a> G<'a> {
         }
     }
 
+    /// start-up completed, then an indication that re-arms an automatic task arrives while another one is
+    /// already owed (overflow -> integrity poll owed; restart seen before it completes), then unsolicited
+    /// data: the unsolicited gate must close again on the restart
+    fn gate_script(&mut self) {
+        let src = self.assocs[0].addr;
+        for _ in 0..6 {
+            self.line("reply");
+        }
+        let mut nul = |g: &mut Self, iin1: u8, iin2: u8| {
+            let seq = g.unsol_seq;
+            g.unsol_seq = (seq + 1) & 0x0F;
+            g.line(&format!("rx {src} 1 {}", hex(&[0xF0 | seq, 0x82, iin1, iin2])));
+        };
+        nul(self, 0x00, 0x08);
+        match self.r.below(4) {
+            0 => {}
+            1 => self.line("tick 1"),
+            2 => {
+                // the overflow-triggered poll goes unanswered into its back-off
+                let t = self.assocs[0].rto;
+                self.line(&format!("tick {t}"));
+            }
+            _ => self.line("reply iin2=2"),
+        }
+        if self.r.chance(1, 2) {
+            nul(self, 0x80, 0x00);
+        } else {
+            self.line("reply iin1=128");
+        }
+        // unsolicited data while the repeated integrity poll is still owed
+        let seq = self.unsol_seq;
+        self.unsol_seq = (seq + 1) & 0x0F;
+        let mut f = vec![0xF0 | seq, 0x82, 0x00, 0x00];
+        f.extend(measurement_objects(&mut self.r));
+        self.line(&format!("rx {src} 1 {}", hex(&f)));
+    }
+
     fn unsolicited(&mut self) {
         let i = self.pick_assoc();
         let src = if self.r.chance(1, 10) { *self.r.pick(&[9u16, 2000]) } else { self.assocs[i].addr };
@@ -714,6 +751,9 @@ pub fn gen(thorough: bool, seed: u64, w: &mut dyn Write) {
             for _ in 0..k {
                 if g.r.chance(5, 6) { g.reply_ok() } else { g.step() }
             }
+        }
+        if g.r.chance(1, 25) {
+            g.gate_script();
         }
         let len = g.r.range(3, 45);
         for _ in 0..len {
